@@ -65,7 +65,8 @@ def gen(rng, tier, index):
             kind = rng.choice(["other_prefix", "fewer", "more_before", "more_after", "out_prefix", "prefix_as_suffix", "no_prefix", "empty_levels", "short_raw"])
             ops.append(["foreign", kind, f"{nid};{cid};1;0;{rng.choice([0, 2])};1", rng.choice([0, 1])])
         elif roll < 0.88:
-            ops.append(["set", nid, cid, rng.choice([0, 2, 24, 24]), rng.choice(["1", "0", "x y", "22", "28/09/2026", "a/b", "/", "http://x/y?z=1", "", "  12:30", "\tindented", " /"]), rng.choice([0, 1])])
+            ops.append(["set", nid, cid, rng.choice([0, 2, 24, 24]), rng.choice(["1", "0", "x y", "22", "28/09/2026", "a/b", "/", "http://x/y?z=1", "", "  12:30", "\tindented", " /",
+                                                                        "a text of more than twenty-five characters", "0123456789" * 6]), rng.choice([0, 1])])
         elif roll < 0.94:
             ops.append(["dup", f"{nid};{cid};1;1;24;dup", 1])
         else:
@@ -324,12 +325,29 @@ def run(case):
                                                    messagelike=in_p in MESSAGELIKE))
                             break
                 elif kind == "set":
+                    n_before = len(broker.published)
                     try:
                         world.call("set_child_value", op[1], op[2], op[3], op[4], ack=op[5])
                     except Exception:  # pylint: disable=broad-except
                         pass
                     world.settle()
                     health("set")
+                    if in_p == out_p and len(broker.published) > n_before and not violations:
+                        # with equal prefixes the topic of a command is also an inbound topic: the node echoing the state it
+                        # was just set to arrives on exactly the topic (and with the payload) the gateway last published
+                        _t, etopic, epayload, eqos, _r = broker.published[-1]
+                        levels = etopic[len(in_p) + 1:].split("/") if in_p else etopic.lstrip("/").split("/")
+                        if len(levels) == 5:
+                            want = ";".join(levels[:3] + ["1" if eqos > 0 else "0"] + levels[4:5] + [epayload])
+                            if tables.parse_canonical(want) is not None:
+                                got = deliver(etopic, epayload, eqos)
+                                health("echo")
+                                probes["echo_of_own_command"] = probes.get("echo_of_own_command", 0) + 1
+                                if got != [want] and not violations:
+                                    violations.append(_vio("own-topic-not-accepted", {"topic": etopic, "payload": epayload, "want": want, "got": got,
+                                                                                      "in_prefix": in_p, "kind": "echo of the last publication"},
+                                                           messagelike=in_p in MESSAGELIKE))
+                                    break
                 elif kind == "probe":
                     before = len(broker.published)
                     got = deliver(f"{in_p}/78/255/3/0/6", "0", 0)
